@@ -340,8 +340,10 @@ func (sa *Safe) wireSize(st *State, v AVal, t types.Type) *Lin {
 			if e.Info()&(types.IsInteger|types.IsBoolean) != 0 && e.Kind() != types.Int && e.Kind() != types.Uint {
 				return linConst(sa.w.sizeOf(u.Elem()))
 			}
-		case *types.Array:
-			return linConst(sa.w.sizeOf(u.Elem()))
+		case *types.Array, *types.Struct:
+			if n, ok := fixedWireSize(u.Elem()); ok {
+				return linConst(n)
+			}
 		case *types.Slice:
 			// *[]byte: length of the pointed-to slice
 			if v.Kind == avPtr && v.Obj != nil {
@@ -353,9 +355,48 @@ func (sa *Safe) wireSize(st *State, v AVal, t types.Type) *Lin {
 			}
 		}
 	case *types.Array:
-		return linConst(sa.w.sizeOf(t))
+		if n, ok := fixedWireSize(t); ok {
+			return linConst(n)
+		}
+	case *types.Struct:
+		if n, ok := fixedWireSize(t); ok {
+			return linConst(n)
+		}
 	}
 	return nil
+}
+
+// fixedWireSize: encoding/binary size of a fixed-size value (no padding): sized integers,
+// booleans, arrays and structs of those.
+func fixedWireSize(t types.Type) (int64, bool) {
+	switch u := t.Underlying().(type) {
+	case *types.Basic:
+		switch u.Kind() {
+		case types.Bool, types.Int8, types.Uint8:
+			return 1, true
+		case types.Int16, types.Uint16:
+			return 2, true
+		case types.Int32, types.Uint32, types.Float32:
+			return 4, true
+		case types.Int64, types.Uint64, types.Float64:
+			return 8, true
+		}
+	case *types.Array:
+		if e, ok := fixedWireSize(u.Elem()); ok {
+			return e * u.Len(), true
+		}
+	case *types.Struct:
+		var n int64
+		for i := 0; i < u.NumFields(); i++ {
+			e, ok := fixedWireSize(u.Field(i).Type())
+			if !ok {
+				return 0, false
+			}
+			n += e
+		}
+		return n, true
+	}
+	return 0, false
 }
 
 func (sa *Safe) stdlib(fr *frame, st *State, x *ssa.Call, callee *ssa.Function, name string, args []AVal) callResult {
